@@ -49,7 +49,7 @@ ASSUMPTIONS = [
     "canonical form skips only the declared metadata of vlib.canon.SKIP",
     "Project.run_optimization is dead code (optim_ins.make no longer exists) and is out of scope",
 ]
-BUDGET = {"quick": 480, "thorough": 24000}
+BUDGET = {"quick": 400, "thorough": 24000}
 TIME_CAP = {"quick": 65, "thorough": 1150}
 TOL = 1e-9
 INF = math.inf
@@ -114,15 +114,20 @@ def _measurables(draw, c, s, from_year):
 
 
 def _alloc(draw, c, start_year):
-    mode = draw(st.sampled_from(["progset", "progset", "none", "dict", "series"]))
+    """allocation of the caller's instructions: copied from the progset / absent / one value per program / time series whose values
+    differ between the years (mode 'series': in the instructions, mode 'book': in the program book's spending data, no overwrite)"""
+    mode = draw(st.sampled_from(["progset", "progset", "none", "dict", "series", "series", "series", "book"]))
     vals = {}
     if mode == "dict":
         for p, v in c["progs"]:
             if not _one_in(draw, 4):
                 vals[p] = [[start_year], [v * draw(st.sampled_from([0.5, 1.0, 1.0, 2.0]))]]
-    elif mode == "series":
-        p, v = draw(st.sampled_from(c["progs"]))
-        vals[p] = [[start_year, start_year + 1.0], [v * draw(st.sampled_from([0.5, 1.0, 2.0])), v * draw(st.sampled_from([0.5, 1.0, 2.0]))]]
+    elif mode in ("series", "book"):
+        k = draw(st.sampled_from([1, 2, 2, 3]))
+        for p, v in draw(st.lists(st.sampled_from(c["progs"]), min_size=k, max_size=k, unique=True)):
+            ts = sorted(draw(st.lists(st.sampled_from([start_year, start_year + 1.0, start_year + 2.0]), min_size=2, max_size=3, unique=True)))
+            fs = draw(st.permutations([0.5, 1.0, 2.0, 1.5]))[: len(ts)]  # pairwise different values
+            vals[p] = [ts, [v * f for f in fs]]
     return {"mode": mode, "vals": vals}
 
 
@@ -141,11 +146,20 @@ def _adjustments(draw, c, alloc, start_year, finite=False):
     progs = [p for p, _ in c["progs"]]
     k = draw(st.sampled_from([1, 2, 2, 2, 3]))
     chosen = draw(st.lists(st.sampled_from(progs), min_size=k, max_size=k, unique=True))
-    shared = sorted(draw(st.lists(st.sampled_from([start_year, start_year + 1.0, start_year + 2.0]), min_size=1, max_size=2, unique=True)))
+    varying = [p for p in progs if alloc["mode"] in ("series", "book") and p in alloc["vals"]]
+    if varying and not _one_in(draw, 5):
+        chosen = (varying + [p for p in chosen if p not in varying])[:k]  # programs whose starting spend changes over time come first
+    all_years = [start_year, start_year + 1.0, start_year + 2.0]
+    shared = sorted(draw(st.lists(st.sampled_from(all_years), min_size=1, max_size=3, unique=True)))
     adj = []
     for p in chosen:
-        years = shared if not _one_in(draw, 4) else sorted(draw(st.lists(st.sampled_from([start_year, start_year + 1.0, start_year + 2.0]), min_size=1, max_size=2, unique=True)))
-        limit = draw(st.sampled_from(["abs", "abs", "rel"]))
+        if p in varying and not _one_in(draw, 4):
+            years = [float(t) for t in alloc["vals"][p][0]]  # one adjustment over the years in which the starting spend differs
+        elif not _one_in(draw, 4):
+            years = shared
+        else:
+            years = sorted(draw(st.lists(st.sampled_from(all_years), min_size=1, max_size=3, unique=True)))
+        limit = draw(st.sampled_from(["abs", "rel"] if p in varying else ["abs", "abs", "rel"]))
         lower, upper, initial = [], [], []
         for t in years:
             cur = _current(c, alloc, start_year, p, t)
@@ -357,6 +371,10 @@ def _instructions(at, case, pg):
     a = case["alloc"]
     if a["mode"] == "progset":
         return at.ProgramInstructions(start_year=case["start_year"], alloc=pg)
+    if a["mode"] == "book":
+        for p, tv in a["vals"].items():  # time-varying spending data in the (copied) program book, no overwrite in the instructions
+            pg.programs[p].spend_data = at.TimeSeries(t=list(tv[0]), vals=[float(x) for x in tv[1]], units=pg.programs[p].spend_data.units)
+        return at.ProgramInstructions(start_year=case["start_year"])
     alloc = {p: at.TimeSeries(t=list(tv[0]), vals=[float(x) for x in tv[1]]) for p, tv in a["vals"].items()}
     return at.ProgramInstructions(start_year=case["start_year"], alloc=alloc or None)
 
@@ -505,6 +523,23 @@ def _check_optimize(case):
 
     objs = {"parset": ps, "progset": pg, "instructions": inst}
     snap0 = H.snapshot(P, **objs)
+
+    # ---- the initial values and bounds the optimiser starts from: per (program, year) the spend of the caller's instructions in THAT year
+    if len(set(r["cur"] for r in rows)) > 1 and any(sum(1 for r in rows if r["prog"] == q["prog"]) > 1 and any(r["cur"] != q["cur"] for r in rows if r["prog"] == q["prog"]) for q in rows):
+        labels.append("start-spend-differs-between-adjusted-years")
+    try:
+        x0, xmin, xmax = _build_optimization(at, case, meas, tvec)[0].get_initialization(pg, inst)
+        got_invalid = False
+    except at.InvalidInitialConditions:
+        got_invalid = True
+    if got_invalid != invalid_bounds:
+        raise Violation(ID, "initialization/values-differ-from-instructions", "get_initialization raised InvalidInitialConditions=%s but per (program, year) the instructions' spend and bounds are %r; %s" % (got_invalid, [(r["prog"], r["t"], r["x0"], r["lo"], r["hi"]) for r in rows], desc))
+    if not got_invalid:
+        for i, r in enumerate(rows):
+            for nm, got, exp in (("initial value", x0[i], r["x0"]), ("lower bound", xmin[i], r["lo"]), ("upper bound", xmax[i], r["hi"])):
+                if not _close(float(got), exp):
+                    raise Violation(ID, "initialization/values-differ-from-instructions", "%s of %s in %r is %r, the caller's instructions give %r (spend in that year %r); %s" % (nm, r["prog"], r["t"], float(got), exp, r["cur"], desc))
+    _state_check(snap0, P, objs, "after get_initialization", desc)
     ref = _run_optimize(at, case, P, ps, pg, inst, meas)
     n_ref = ref["n"]
     phase = "after %s" % ref["outcome"]
@@ -540,6 +575,16 @@ def _check_optimize(case):
 
     # ---- the starting point is the caller's point when no initial value is overridden and no total is imposed
     same_start = all(r["x0"] == r["cur"] for r in rows) and all(_close(v, math.fsum(r["x0"] for r in rows if r["t"] == t)) for t, v in totals.items())
+    if same_start:
+        # writing the initial values into the allocation must not alter the spending at any simulation time (it does when a program
+        # without an allocation entry has time-varying program book spending before its first adjusted year: the new entry is extrapolated backwards)
+        for p in set(r["prog"] for r in rows):
+            pts = dict(zip([float(t) for t in inst.alloc[p].t], [float(v) for v in inst.alloc[p].vals])) if p in inst.alloc else {}
+            pts.update({r["t"]: r["x0"] for r in rows if r["prog"] == p})
+            tp = sorted(pts)
+            if any(H.step_value(tp, [pts[t] for t in tp], float(t)) != H.own_spend(pg, inst, p, float(t)) for t in tvec):
+                same_start = False
+                labels.append("start-differs:new-allocation-entry-extrapolated-backwards")
     if same_start:
         labels.append("start==caller")
         if not _close(f_start, f_caller):
